@@ -56,6 +56,8 @@ def run(ctx):
     for i, lines in enumerate(res):
         for l in lines:
             c = l.split(" ")[0]
+            if c.startswith("fail-effect-visible:"):
+                c = ":".join(c.split(":")[:2])        # class = the kind of the failing query (the dump sections stay in the text)
             failures.append(dict(cls=KNOWN_MAP.get(c, c), what=l[:5000]))
         stats.append(os.path.join(ctx.workdir, "fail%d" % i, "stats.json"))
     dist, ev, nt, samples = merge_stats(stats)
